@@ -84,12 +84,13 @@ int32 __wrap_csChacha20Poly1305IetfEncryptTls13(void *ssl, unsigned char *pt, un
 /* ---------------------------------------------------------------- queues of records */
 #define QCAP (1 << 20)
 #define MQ 4096
-typedef struct { int outer, inner, sealed; } rmeta_t;
+typedef struct { int outer, inner, sealed, early; } rmeta_t;
 typedef struct { unsigned char *b; size_t len; rmeta_t m[MQ]; int mh, mt; } queue_t;
 static void q_init(queue_t *q) { if (!q->b) q->b = malloc(QCAP); q->len = 0; q->mh = q->mt = 1024; }
-static void q_meta_push_head(queue_t *q, int outer, int inner, int sealed) { if (q->mh > 0) { q->mh--; rmeta_t *m = &q->m[q->mh % MQ]; m->outer = outer; m->inner = inner; m->sealed = sealed; } }
-static void q_meta_push(queue_t *q, int outer, int inner, int sealed) { rmeta_t *m = &q->m[q->mt++ % MQ]; m->outer = outer; m->inner = inner; m->sealed = sealed; }
-static rmeta_t q_meta_pop(queue_t *q) { rmeta_t z = { -1, -1, -1 }; if (q->mh == q->mt) return z; return q->m[q->mh++ % MQ]; }
+static void q_meta_push_head(queue_t *q, int outer, int inner, int sealed) { if (q->mh > 0) { q->mh--; rmeta_t *m = &q->m[q->mh % MQ]; m->outer = outer; m->inner = inner; m->sealed = sealed; m->early = 0; } }
+static int g_meta_early = 0;   /* set while the sender is a client sealing 0-RTT data under the early traffic key */
+static void q_meta_push(queue_t *q, int outer, int inner, int sealed) { rmeta_t *m = &q->m[q->mt++ % MQ]; m->outer = outer; m->inner = inner; m->sealed = sealed; m->early = (sealed && g_meta_early); }
+static rmeta_t q_meta_pop(queue_t *q) { rmeta_t z = { -1, -1, -1, 0 }; if (q->mh == q->mt) return z; return q->m[q->mh++ % MQ]; }
 static uint64_t g_wire_hash[2] = { 1469598103934665603ULL, 1469598103934665603ULL }; static size_t g_wire_len[2];
 static int g_sendchunk = 0;     /* >0: drain outdata by partial sends of this many bytes */
 static int g_callsep = 0;       /* print "/" after every matrixSslReceivedData cycle */
@@ -110,6 +111,7 @@ typedef struct {
     sslSessionId_t *sid;
     int done_events;        /* MATRIXSSL_HANDSHAKE_COMPLETE seen */
     int tx_sealed;          /* <= TLS 1.2: a ChangeCipherSpec has been sent */
+    int early_capable;      /* TLS 1.3 client created with 0-RTT enabled (PSK with max_early_data) */
 } peer_t;
 static peer_t g_c, g_s;
 static queue_t g_c2s, g_s2c;
@@ -148,7 +150,7 @@ static void print_snap(peer_t *p) {
            (s->flags & SSL_FLAGS_ERROR) ? "E" : "", (s->flags & SSL_FLAGS_CLOSED) ? "C" : "",
            (s->flags & SSL_FLAGS_READ_SECURE) ? "R" : "", (s->flags & SSL_FLAGS_WRITE_SECURE) ? "W" : "",
            matrixSslHandshakeIsComplete(s) ? 1 : 0, (int) s->err,
-           edskip, (int) s->tls13ReceivedEarlyDataLen, (int) s->tls13SessionMaxEarlyData, limbo, (int) s->ignoredMessageCount,
+           edskip, (int) (s->tls13ReceivedEarlyDataLen & 0x7fffffff), (int) s->tls13SessionMaxEarlyData, limbo, (int) s->ignoredMessageCount,
            s->tls13ClientEarlyDataEnabled ? 1 : 0, s->tls13ServerEarlyDataEnabled ? 1 : 0,
            (s->flags & SSL_FLAGS_AEAD_R) ? 1 : 0, (int) s->deBlockSize, (int) s->deMacSize);
 }
@@ -167,6 +169,8 @@ static size_t flush_out(peer_t *p) {
         q_push(q, buf, (size_t) n);
         if (g_sendchunk == 0) {   /* per-record metadata: outer type, sealed?, inner type */
             size_t off = 0; int is13 = ACTV_VER(p->ssl, v_tls_1_3_any) ? 1 : 0;
+            /* a TLS 1.3 client that has not processed a ServerHello yet can only seal under its early traffic key */
+            g_meta_early = (!p->is_server && is13 && p->early_capable && p->ssl->hsState != SSL_HS_DONE) ? 1 : 0;
             P("out=[");
             while (off + 5 <= (size_t) n) {
                 size_t l = 5 + ((size_t) buf[off+3] << 8) + buf[off+4]; int outer = buf[off], inner = outer, sealed;
@@ -176,6 +180,7 @@ static size_t flush_out(peer_t *p) {
                 P("%d:%d:%d,", outer, inner, sealed);
                 off += l;
             }
+            g_meta_early = 0;
             P("] ");
         }
         total += (size_t) n;
@@ -259,6 +264,7 @@ typedef struct {
     psCipher16_t suites[8]; int nsuites;
     int cauth, ccb, scb, key /*0 rsa2048 1 ec256 2 rsa4096*/, resume /*0 none, 1 offer saved sid*/, ticket, ems;
     int cca /* client loads CA: 1 yes(default) 0 no 2 wrong CA */;
+    int psk /* external TLS 1.3 PSK on both sides (allows client early data) */, smaxed /* server tls13SessionMaxEarlyData */;
     const char *name; int year; uint64_t seed;
     int keep_skeys;
 } scfg_t;
@@ -312,11 +318,19 @@ static int sess_new(scfg_t *c) {
     }
     if (matrixSslNewKeys(&g_c.keys, NULL) < 0) return -2;
     if ((rc = load_identity(g_c.keys, c->key, c->cauth ? 1 : 0, c->cca)) < 0) return rc - 2000;
+    if (c->psk) {
+        static const unsigned char pskv[32] = "verif-external-psk-0123456789ab"; static const unsigned char pskid[] = "verif-psk-id";
+        psTls13SessionParams_t pp; memset(&pp, 0, sizeof pp); pp.maxEarlyData = 16384; pp.cipherId = c->nsuites ? c->suites[0] : 0x1301;
+        if (!(c->keep_skeys && g_skeys_persist == g_s.keys && c->resume) &&
+            matrixSslLoadTls13Psk(g_s.keys, pskv, 32, pskid, sizeof(pskid) - 1, &pp) < 0) return -7;
+        if (matrixSslLoadTls13Psk(g_c.keys, pskv, 32, pskid, sizeof(pskid) - 1, &pp) < 0) return -8;
+    }
     sslSessOpts_t so; memset(&so, 0, sizeof so);
     psProtocolVersion_t v[4];
     for (int i = 0; i < c->nsver; i++) v[i] = minor2ver(c->sver[i]);
     if (c->nsver && (rc = matrixSslSessOptsSetServerTlsVersions(&so, v, c->nsver)) < 0) return rc - 3000;
     if (c->ems < 0) so.extendedMasterSecret = -1;
+    if (c->smaxed) so.tls13SessionMaxEarlyData = (psSize_t) c->smaxed;
     g_s.cb_mode = c->scb;
     rc = matrixSslNewServerSession(&g_s.ssl, g_s.keys, c->cauth ? cb_server : NULL, &so);
     if (rc < 0) return rc - 4000;
@@ -334,6 +348,7 @@ static int sess_new(scfg_t *c) {
     if (rc != MATRIXSSL_REQUEST_SEND) return rc - 6000;
     if (c->year) g_pin_year = c->year;   /* the handshake itself runs at the requested date (expired / not yet valid certificates) */
     g_ssl_of[0] = g_c.ssl; g_ssl_of[1] = g_s.ssl;
+    g_c.early_capable = g_c.ssl->tls13ClientEarlyDataEnabled ? 1 : 0;
     return 0;
 }
 
@@ -344,7 +359,7 @@ static int deliver_one(int dir, size_t chunk) {
     if (!l) return 0;
     unsigned char *tmp = malloc(l); memcpy(tmp, q->b, l); q_pop(q, l);
     rmeta_t m = q_meta_pop(q);
-    P("[o=%d i=%d s=%d l=%zu b=%02x%02x] ", tmp[0], m.inner, m.sealed, l - 5, l > 5 ? tmp[5] : 0, l > 6 ? tmp[6] : 0);
+    P("[o=%d i=%d s=%d l=%zu b=%02x%02x e=%d] ", tmp[0], m.inner, m.sealed, l - 5, l > 5 ? tmp[5] : 0, l > 6 ? tmp[6] : 0, m.early);
     feed(to, tmp, l, chunk); free(tmp);
     return 1;
 }
